@@ -86,6 +86,9 @@ TImpulse ==
 Next == l <= Len(Rec) /\ (TNew \/ TStep \/ TImpulse) /\ l' = l + 1
 Spec == Init /\ [][Next]_vars
 
+\* reaching the end of the trace ends the search at once (reported by TLC as a violation of NotDone = accepted);
+\* otherwise the postcondition reports the longest matched prefix
+NotDone == l <= Len(Rec)
 Matched == TLCGet("stats").diameter - 1
 TraceAccepted ==
     \/ Matched = Len(Rec)
